@@ -25,7 +25,7 @@ import Mathlib.Tactic.Linarith
 import Mathlib.Tactic.Ring
 
 namespace Onsager.C27
-open Onsager.C28 (Cell Err Inv imul reorder saneB)
+open Onsager.C28 (Cell Err Inv imul reorder reorderZip saneB)
 
 /-! ### permutations as index lists -/
 
@@ -661,7 +661,9 @@ theorem equiv_sound_reorder (sc : SiteCtx) (G : List (List Nat)) (a b : Cell) (k
     have hcl : c < a.chemorder.length := by rw [ha.len]; exact hc
     rw [imul_chemorder]
     simpa [List.getD_eq_getElem?_getD, List.getElem?_map, List.getElem?_eq_getElem hcl] using hp
-  unfold reorder
+  have hguard : ¬ (mp.length ≠ (imul a m).chemorder.length) := by rw [hmpl, hgl]; simp
+  rw [reorder, if_neg hguard]
+  unfold reorderZip
   -- the index guard
   have hok : ((imul a m).chemorder.zip mp).all (fun (x : List Nat × List Nat) =>
       (List.range x.1.length).all fun i =>
